@@ -504,6 +504,7 @@ func (d *DNode) Shape() string {
 // class (disjoint, subset, superset, same keys different leaves, nested) occurs.
 func Derive(r *rand.Rand, s *Schema, t *DNode, kids []*SNode, o DataOpts) *DNode {
 	d := derive(r, s, t, kids, o)
+	normalizeChoices(r, d, kids)
 	if t.S != nil && t.S.Kind == List {
 		// an entry keeps its identity
 		for _, kn := range t.S.Keys {
@@ -582,4 +583,45 @@ func derive(r *rand.Rand, s *Schema, t *DNode, kids []*SNode, o DataOpts) *DNode
 		}
 	}
 	return out
+}
+
+// normalizeChoices makes a tree conform to "one case per choice": where several cases of a choice hold
+// data, one is kept (chosen by r) and the data of the others is dropped.
+func normalizeChoices(r *rand.Rand, d *DNode, kids []*SNode) {
+	var scan func(cs []*SNode)
+	scan = func(cs []*SNode) {
+		for _, c := range cs {
+			switch c.Kind {
+			case Choice:
+				var with []*SNode
+				for _, k := range c.Children {
+					if hasData(d, k) {
+						with = append(with, k)
+					}
+				}
+				if len(with) > 1 {
+					keep := with[r.Intn(len(with))]
+					for _, k := range with {
+						if k != keep {
+							clearData(d, k)
+						}
+					}
+				}
+				for _, k := range c.Children {
+					scan(k.Children)
+				}
+			case Case:
+				scan(c.Children)
+			}
+		}
+	}
+	scan(kids)
+	for _, k := range d.Kids {
+		normalizeChoices(r, k, k.S.Children)
+	}
+	for _, l := range d.Lists {
+		for _, e := range l.Entries {
+			normalizeChoices(r, e, e.S.Children)
+		}
+	}
 }
